@@ -12,6 +12,7 @@
 import EinoV.Model.C18
 import EinoV.Proofs.C18
 import EinoV.Proofs.C18Gen
+import EinoV.Proofs.C18Shared
 import EinoV.Gen.FactsC18
 import EinoV.Expected.C18
 
@@ -431,6 +432,81 @@ theorem react_interleaving_invariant {F : Facts} (hF : genFacts = some F) (cfg :
       | nil => exact .nil
       | cons hr _ ih => exact .cons ⟨full_reinterleaved hr, goes_reinterleaved _ cfg mode hr⟩ ih
     rw [rounds_rel cfg _ hs l orig]
+
+/-! ## several runs started from one message slice of the caller, overlapping in time -/
+
+/-- Source fact tie for the memory of the history: in package react every store into
+    `state.Messages` is `state.Messages = append(state.Messages, …)`, and the state generator
+    makes the slice inside its per-run closure. -/
+theorem mem_facts_match : genMemFacts = Expected.C18.memFacts := by decide
+
+/-- **react_runs_isolated.** Any number of runs (each with its own agent configuration, entry
+    point Generate / Stream and model script) started from ONE message slice of the caller — the
+    slice's backing array holding `orig` and any spare cells `spare` behind it (`cap > len`: built
+    with `append`, or a prefix of a longer slice) — and interleaved node execution by node
+    execution in ANY order `sched` (then driven to completion), with Go's `append` writing in
+    place whenever the capacity allows (`goAppend`, any growth policy `slack`): every run shows
+    exactly the model inputs, node executions and result of that run alone (`run`), and the
+    caller's backing array — its elements and its spare cells — is as the caller left it. So
+    every theorem above about `run` (history of the k-th model call, alternation, result, step
+    limit) holds for each of the overlapping runs. (Holds for any topology / checker facts `F`;
+    what it needs are the two memory facts.) -/
+theorem react_runs_isolated (F : Facts) (slack : Nat → Nat)
+    (orig spare : List Msg) (specs : List RunSpec) (sched : List Nat) :
+    (runShared F genMemFacts slack orig spare specs sched).out =
+      { runs := specs.map (fun p => some (run F p.cfg p.mode orig p.script)),
+        callerArr := orig ++ spare } := by
+  rw [mem_facts_match]
+  exact runShared_isolated F slack orig spare specs sched
+
+/-- **react_history_shared.** The clause "the k-th model call sees the original messages
+    followed by every earlier assistant message and the tool results for its calls, in order",
+    for run `i` of any such experiment: what its k-th model call saw is its own transcript —
+    nothing of the runs it overlapped with. -/
+theorem react_history_shared {F : Facts} (hF : genFacts = some F) (slack : Nat → Nat)
+    (orig spare : List Msg) (specs : List RunSpec) (sched : List Nat) (i : Nat) (p : RunSpec)
+    (r : Run) (k : Nat) (s : List Msg) (hp : specs[i]? = some p)
+    (hr : (runShared F genMemFacts slack orig spare specs sched).out.runs[i]? = some (some r))
+    (hk : r.seen[k]? = some s) :
+    ∃ t, transcript p.cfg (p.script.take k) = some t ∧ s = p.cfg.modifier (orig ++ t) := by
+  rw [react_runs_isolated F] at hr
+  simp only [List.getElem?_map, hp, Option.map_some, Option.some.injEq] at hr
+  subst hr
+  exact react_history hF p.cfg p.mode orig p.script k s hk
+
+/-- non-vacuity: runs A (Generate) and B (Stream) from a slice with two spare cells, A parked
+    after its first model call while B runs its first round, then A's tools, then the rest: both
+    see their own transcripts and the spare cells are untouched -/
+example : (runShared Expected.C18.facts Expected.C18.memFacts (fun n => n) wOrig wSpare
+            [wRunA, wRunB] [0, 1, 1, 0]).out
+    = { runs := [some { seen := [wOrig, wOrig ++ [⟨.assistant, "for A", [⟨"cA", "t", "a", none⟩], ""⟩, ⟨.tool, "t(a)", [], "cA"⟩]],
+                        evs := [.chat, .tools [⟨"cA", "t", "a", none⟩], .chat],
+                        result := .ok ⟨.assistant, "answer A", [], ""⟩ },
+                 some { seen := [wOrig, wOrig ++ [⟨.assistant, "for B", [⟨"cB", "t", "b", none⟩], ""⟩, ⟨.tool, "t(b)", [], "cB"⟩]],
+                        evs := [.chat, .tools [⟨"cB", "t", "b", none⟩], .chat],
+                        result := .ok ⟨.assistant, "answer B", [], ""⟩ }],
+        callerArr := wOrig ++ wSpare } := by decide
+
+/-- a changed fact changes the model: were the history to adopt the caller's slice on the first
+    round (`state.Messages = input`), the same experiment would show A's second model call B's
+    assistant message with A's tool result, and the caller's spare cells overwritten … -/
+example : ((runShared Expected.C18.facts { Expected.C18.memFacts with historyOnlyAppended := false }
+            (fun n => n) wOrig wSpare [wRunA, wRunB] [0, 1, 0, 1]).out.runs.map (Option.map (·.seen)))
+    = [some [wOrig, wOrig ++ [⟨.assistant, "for B", [⟨"cB", "t", "b", none⟩], ""⟩, ⟨.tool, "t(a)", [], "cA"⟩]],
+       some [wOrig, wOrig ++ [⟨.assistant, "for B", [⟨"cB", "t", "b", none⟩], ""⟩, ⟨.tool, "t(b)", [], "cB"⟩]]] := by decide
+
+/-- … and already a single run would write into the caller's spare capacity -/
+example : (runShared Expected.C18.facts { Expected.C18.memFacts with historyOnlyAppended := false }
+            (fun n => n) wOrig wSpare [wRunA] []).out.callerArr
+    = wOrig ++ [⟨.assistant, "for A", [⟨"cA", "t", "a", none⟩], ""⟩, ⟨.tool, "t(a)", [], "cA"⟩] := by decide
+
+/-- a changed fact changes the model: one history array made when the agent is built (not per
+    run) lets overlapping runs read each other's history -/
+example : ((runShared Expected.C18.facts { Expected.C18.memFacts with stateFreshPerRun := false }
+            (fun n => n) wOrig [] [{ wRunA with cfg := wCfg [] 8 }, { wRunB with cfg := wCfg [] 8 }]
+            [0, 1, 0, 1]).out.runs.map (Option.map (·.seen)))
+    ≠ [some (run Expected.C18.facts (wCfg [] 8) .generate wOrig wRunA.script).seen,
+       some (run Expected.C18.facts (wCfg [] 8) .stream wOrig wRunB.script).seen] := by decide
 
 /-! ## the negation witness, non-vacuity -/
 
